@@ -320,11 +320,12 @@ Qed.
 (* nodes other than instructions and data leave the encodings alone *)
 Definition plain (n : node) : Prop := match n with NInstr _ _ | NData _ _ => False | _ => True end.
 Lemma plain_keeps last n st pos st' r pos' : plain n ->
-  resolve_node names defs last n st pos = EOk (st', r, pos') -> s_instr st' = s_instr st /\ s_data st' = s_data st.
+  resolve_node names defs last n st pos = EOk (st', r, pos') ->
+  s_instr st' = s_instr st /\ s_data st' = s_data st /\ length (s_sym st') = length (s_sym st).
 Proof.
   intros Hp H. destruct n as [s|s e|i src|width elems|k e|k e|k e]; try destruct Hp; cbn [resolve_node] in H.
-  - destruct (address_at pos (negb last)) as [a|]; [|discriminate]. inversion H; subst; auto.
-  - destruct (eval code_ops _ e []) as [[v c]|]; [|discriminate]. inversion H; subst; auto.
+  - destruct (address_at pos (negb last)) as [a|]; [|discriminate]. inversion H; subst; cbn [s_sym]; rewrite set_nth_length; auto.
+  - destruct (eval code_ops _ e []) as [[v c]|]; [|discriminate]. inversion H; subst; cbn [s_sym]; rewrite set_nth_length; auto.
   - destruct (eval code_ops _ e []) as [[v c]|]; [|discriminate].
     destruct (expect_error_or_bigint v) as [v'|]; [|discriminate].
     match type of H with match ?x with EErr => _ | EOk _ => _ end = _ => destruct x as [z|]; [|discriminate] end.
@@ -363,13 +364,17 @@ Proof. intros (a & b & c) (a' & b' & c'). repeat split; congruence. Qed.
 Lemma sub_flags_ws x st : sub_flags x (with_state x st). Proof. repeat split; auto. Qed.
 Lemma same_flags_ws x st : same_flags x (with_state x st). Proof. repeat split. Qed.
 
+Definition lens (x : sstate) : Prop :=
+  length (fz_sym x) = length (s_sym (ss x)) /\ length (fz_instr x) = length (s_instr (ss x)) /\
+  length (fz_data x) = length (s_data (ss x)).
+
 Definition Inv (x : sstate) : Prop :=
   (opt = true -> good (ss x) /\ kinstr_ok (ss x)) /\
   (forall i, flag (fz_instr x) i = true -> opt = true /\ exists d, nth_error (s_instr (ss x)) i = Some d /\ frozen_instr_ok i d) /\
   (forall d, flag (fz_data x) d = true -> exists b, nth_error (s_data (ss x)) d = Some b /\
       forall w elems e, In (NData w elems) ns -> In (d, e) elems -> frozen_data_ok d w e b) /\
   (forall s, flag (fz_sym x) s = true -> opt = true /\ exists e, In (NConst s e) ns /\ const_known e = true) /\
-  length (fz_data x) = length (s_data (ss x)).
+  lens x.
 
 Definition upd_data (st : state) (d : nat) (b : bigint) : state :=
   {| s_sym := s_sym st; s_instr := s_instr st; s_data := set_nth (s_data st) d b; s_res := s_res st; s_align := s_align st; s_addr := s_addr st |}.
@@ -383,7 +388,7 @@ Proof.
   - intros d0 F0. destruct (I3 d0 F0) as [b0 [Hb Hall]]. exists b0. split; [|exact Hall].
     rewrite nth_error_set_nth_other; [exact Hb|]. intro; subst; congruence.
   - exact I4.
-  - rewrite set_nth_length. exact I5.
+  - destruct I5 as (L1 & L2 & L3). unfold lens. cbn [ss with_state upd_data fz_sym fz_instr fz_data s_sym s_instr s_data]. rewrite ?set_nth_length. auto.
 Qed.
 
 Lemma inv_data_freeze x d w el e b : Inv x -> opt = true -> In (NData w el) ns -> In (d, e) el ->
@@ -396,7 +401,7 @@ Proof.
   - exact I2.
   - intros d0 F0. destruct (Nat.eq_dec d0 d) as [->|Hne].
     + assert (Hlt : (d < length (s_data (ss x)))%nat).
-      { rewrite <- I5. unfold flag in F0. destruct (nth_error (set_nth (fz_data x) d true) d) eqn:E; [|discriminate].
+      { rewrite <- (proj2 (proj2 I5)). unfold flag in F0. destruct (nth_error (set_nth (fz_data x) d true) d) eqn:E; [|discriminate].
         assert (nth_error (set_nth (fz_data x) d true) d <> None) by congruence.
         apply nth_error_Some in H. rewrite set_nth_length in H. exact H. }
       destruct (nth_error (s_data (ss x)) d) as [prev|] eqn:Ep; [|apply nth_error_None in Ep; lia].
@@ -405,7 +410,7 @@ Proof.
     + rewrite flag_set_other in F0 by exact Hne. destruct (I3 d0 F0) as [b0 [Hb Hall]]. exists b0. split; [|exact Hall].
       rewrite nth_error_set_nth_other by exact Hne. exact Hb.
   - exact I4.
-  - rewrite !set_nth_length. exact I5.
+  - destruct I5 as (L1 & L2 & L3). unfold lens. cbn [ss with_state upd_data fz_sym fz_instr fz_data s_sym s_instr s_data]. rewrite ?set_nth_length. auto.
 Qed.
 
 (* ---------- simulation, data elements ---------- *)
@@ -523,7 +528,7 @@ Proof.
     rewrite nth_error_set_nth_other; [exact Hj|]. intro; subst; congruence.
   - exact I3.
   - exact I4.
-  - exact I5.
+  - destruct I5 as (L1 & L2 & L3). unfold lens. cbn [ss with_state upd_data upd_instr fz_sym fz_instr fz_data s_sym s_instr s_data]. rewrite ?set_nth_length. auto.
 Qed.
 
 Lemma inv_instr_freeze x i d d' : Inv x -> opt = true -> nth_error (s_instr (ss x)) i = Some d ->
@@ -540,7 +545,7 @@ Proof.
       rewrite nth_error_set_nth_other by exact Hne. exact Hj.
   - exact I3.
   - exact I4.
-  - exact I5.
+  - destruct I5 as (L1 & L2 & L3). unfold lens. cbn [ss with_state upd_data upd_instr fz_sym fz_instr fz_data s_sym s_instr s_data]. rewrite ?set_nth_length. auto.
 Qed.
 
 Lemma kinstr_same st st' : s_instr st' = s_instr st -> kinstr_ok st -> kinstr_ok st'.
@@ -549,8 +554,8 @@ Proof. intros E Hk i d Hd. rewrite E in Hd. exact (Hk i d Hd). Qed.
 Lemma inv_plain n x pos st' r pos' : plain n -> In n ns -> Inv x ->
   resolve_node names defs last n (ss x) pos = EOk (st', r, pos') -> Inv (with_state x st').
 Proof.
-  intros Hp Hin (I1 & I2 & I3 & I4 & I5) H. destruct (plain_keeps _ _ _ _ _ _ _ Hp H) as [Ei Ed].
-  unfold Inv. cbn [ss with_state fz_sym fz_instr fz_data]. rewrite Ei, Ed.
+  intros Hp Hin (I1 & I2 & I3 & I4 & I5) H. destruct (plain_keeps _ _ _ _ _ _ _ Hp H) as (Ei & Ed & El).
+  unfold Inv, lens. cbn [ss with_state fz_sym fz_instr fz_data]. rewrite Ei, Ed, El.
   split; [|split; [|split; [|split]]]; auto.
   intro Ho. destruct (I1 Ho) as [Hg Hk]. split.
   - eapply good_step; [exact (proj2 (Hcan Ho))|exact Hg|exact Hin|exact H].
@@ -560,7 +565,7 @@ Qed.
 Lemma inv_sym_flag y s : Inv y -> opt = true -> (exists e, In (NConst s e) ns /\ const_known e = true) ->
   Inv {| ss := ss y; fz_sym := set_nth (fz_sym y) s true; fz_instr := fz_instr y; fz_data := fz_data y |}.
 Proof.
-  intros (I1 & I2 & I3 & I4 & I5) Ho He. unfold Inv. cbn [ss fz_sym fz_instr fz_data].
+  intros (I1 & I2 & I3 & I4 & I5) Ho He. unfold Inv, lens. cbn [ss fz_sym fz_instr fz_data]. rewrite set_nth_length.
   split; [|split; [|split; [|split]]]; auto.
   intros s0 F0. destruct (flag_true_set _ _ _ F0) as [->|F]; [split; assumption|exact (I4 s0 F)].
 Qed.
